@@ -17,7 +17,7 @@ RULE = ('Histories (Hypothesis RuleBasedStateMachine, <= 25 steps) over the ops:
         'partial per-call dict over existing leaves with 0-2 unknown keys at any depth) | ampycloud.run() in one go | run '
         'one stage / the remaining stages / metar_msg on a live chunk | set a leaf of the global dict, replace a nested '
         'dict or list in it, or edit a nested list in place | edit a live chunk\'s snapshot in place (nested leaf, '
-        'list.append) | reset_prms(). Model = deep copies kept by the harness. After every op: each caller frame (values, '
+        'list.append) | reset_prms() | an epilogue op that names a present instrument of every scene in the global exclusion list and then lets every earlier-built chunk finish its stages. Model = deep copies kept by the harness. After every op: each caller frame (values, '
         'dtypes, index, columns) and each caller dict deep-equals its pre-call copy; a chunk that has completed its stages without harness edits of its own snapshot shows bit-exactly the result of a fresh run of the same frame under reset globals with its snapshot handed over per call (behavioural form of the snapshot clause); the global dict equals the model '
         'global (changed only by the harness\'s own edits); every live chunk\'s prms equals its model snapshot '
         '(construction-time global overridden by the known per-call keys, plus the harness\'s own edits of that chunk). '
@@ -244,6 +244,20 @@ class Interp:
         self.model_global['EXCLUDE_FOR_BASE_HEIGHT_CALC'].append(name)
         self.nested_edit_seen = True
 
+    def op_epilogue(self, op):
+        """ Name a present instrument of every scene in the global exclusion list, then let every chunk that was
+        built earlier finish its stages: none of them may notice. """
+        for k in range(len(self.scenes)):
+            self.op_exclude_present({'scene': k, 'which': op.get('which', 0)})
+        for ent in self.chunks:
+            if ent['stage'] < 3 and not ent.get('compared'):
+                ch = ent['chunk']
+                while ent['stage'] < 3:
+                    (ch.find_slices, ch.find_groups, ch.find_layers)[ent['stage']]()
+                    ent['stage'] += 1
+                self._behaves_like_snapshot(ent)
+        self.nontrivial = self.nontrivial or bool(self.chunks)
+
     def op_reset(self, op):
         self.amp.reset_prms()
         self.model_global = copy.deepcopy(self.defaults)
@@ -396,6 +410,11 @@ def make_machine(ctx, sink):
         @rule(scene=st.integers(0, 2), which=st.integers(0, 3))
         def exclude_present(self, scene, which):
             self.do({'op': 'exclude_present', 'scene': scene, 'which': which})
+
+        @precondition(lambda self: self.it is not None and self.it.chunks)
+        @rule(which=st.integers(0, 2))
+        def epilogue(self, which):
+            self.do({'op': 'epilogue', 'which': which})
 
         @rule()
         def reset(self):
